@@ -1,5 +1,10 @@
 """C06 — diag, transpose, lazy evaluation and indexing of a kernel all agree; active_dims.
 
+Wave 3: + translator `g5_kernel_call` (-> `Gen/KernelCall.lean`; theorems `Props/C06Kernels.lean`: every regenerated kernel
+is pairwise, the C06 laws for them, `Kernel.__call__` preparation / diag decision) and parts H (history on one kernel
+object under every global setting), I (wrappers without own batch_shape around batched kernels), J (last_dim_is_batch
+under every lazy operation), K (regenerated kernels / preparation / decisions executed by the driver vs the real code).
+
 Tie: translator G3 (`harness/translate/g3_lazy_index.py` -> `Gen/LazyIndex.lean`: multi-output slice division
 of `LazyEvaluatedKernelTensor._getitem`, `active_dims` handling of `Kernel.__getitem__` / `expand_batch`) AND
 correspondence:
@@ -21,8 +26,9 @@ import warnings
 from lib import common as C
 
 ID = "C06"
-PROP_MODULES = ["GPVerif.Props.C06"]
-BUILD_TARGETS = ["GPVerif.Props.C06", "GPVerif.Gen.LazyIndex", "GPVerif.Model.KernelIndex"]
+PROP_MODULES = ["GPVerif.Props.C06", "GPVerif.Props.C06Kernels"]
+BUILD_TARGETS = ["GPVerif.Props.C06", "GPVerif.Props.C06Kernels", "GPVerif.Gen.LazyIndex", "GPVerif.Gen.KernelCall",
+                 "GPVerif.Model.KernelIndex"]
 RULE = ("index expressions: per dimension all ints in [-n, n), all slices with start/stop in {None} u [-n-1, n+1] and "
         "step in {None,1,2} (negative steps: rejected by torch), 1-D index tensors, ellipsis at every position, short "
         "indices; exhaustive per dimension against a covering set on the other dimensions (thorough: full products on "
@@ -31,10 +37,18 @@ RULE = ("index expressions: per dimension all ints in [-n, n), all slices with s
         "and not the whole tensor")
 EXHAUSTIVE = True
 TRUSTED = ["translator harness/translate/g3_lazy_index.py (Python ast -> Gen/LazyIndex.lean)",
+           "translator harness/translate/g5_kernel_call.py (covar_dist, Kernel.__call__, forward branch conditions, call sites of "
+           "the distance helpers -> Gen/KernelCall.lean) on top of g5_kernels / g5_formulas (C05: per-pair abstraction of the "
+           "kernel forwards); `colMean` = x.mean(-2), `torch.equal` as the flag `same`, torch.cdist / torch.linalg.norm as Prims",
            "modelled not verified: torch advanced indexing (validated exactly against torch in part A), "
            "linear_operator's LinearOperator.__getitem__ / _get_indices / KroneckerProductLinearOperator"]
-ASSUMPTIONS = ["kernels are pairwise: entry (b,i,j) depends only on the b-th parameter slice, x1[b,i], x2[b,j] "
-               "(for the centred code paths this is C05's centering invariance; observed here to 1e-9)",
+ASSUMPTIONS = ["kernels are pairwise: entry (b,i,j) depends only on the b-th parameter slice, x1[b,i], x2[b,j] — a THEOREM "
+               "(gen_kernel_pairwise, exact over the reals) for the regenerated families RBF generic/fast, Matern 1/2, 3/2, 5/2 "
+               "generic/fast, RQ, Periodic, Cosine, Linear, Polynomial, PiecewisePolynomial q=0..3, Constant; OBSERVED ONLY (1e-9) "
+               "for the hand-modelled kernels: ScaleKernel, AdditiveKernel, ProductKernel, MultitaskKernel, LCMKernel, "
+               "AdditiveStructureKernel, ProductStructureKernel, IndexKernel, SpectralMixture, SpectralDelta, RFF, Hamming, "
+               "GaussianSymmetrizedKL, Arc, Cylindrical, derivative kernels (RBFKernelGrad, ...), Matern with diag=True, and for "
+               "row-subset independence of every kernel in floating point (part K records the largest deviation)",
                "num_outputs_per_input is a positive integer (Int.ediv / emod = Python // and % for positive divisors)",
                "index expressions that torch itself rejects on the dense tensor are outside the property",
                "index expressions whose result has an empty dimension may be rejected by torch / linear_operator "
@@ -53,6 +67,14 @@ def generate(ctx):
     _state["gen"], _state["flags"] = g, k
     ctx.notes["gen_changed"] = changed
     ctx.notes["gen_flags"] = k
+    # the regenerated kernels: per-pair terms (translators owned by C05, run here because this property's theorems are
+    # about their output) and their matrix-level reading + Kernel.__call__ / covar_dist (translator of this property)
+    from translate import g5_formulas, g5_kernels, g5_kernel_call
+    gdir = os.path.join(C.LEAN_DIR, "GPVerif", "Gen")
+    ch = [g5_formulas.generate(C.REPO, os.path.join(gdir, "Formulas.lean")),
+          g5_kernels.generate(C.REPO, os.path.join(gdir, "KernelFormulas.lean")),
+          g5_kernel_call.generate(C.REPO, os.path.join(gdir, "KernelCall.lean"))]
+    ctx.notes["gen_kernels_changed"] = ch
 
 
 # ------------------------------------------------------------------ deterministic inputs
@@ -1096,6 +1118,10 @@ def compare_driver(ctx, lines, recs):
     flags_rep = replies[-1]
     mism = {"A": 0, "C": 0, "D": 0}
     for (kind, data, want), line, rep in zip(recs, lines, replies):
+        if kind.startswith("K"):
+            from props import _c06_extra as X
+            X.compare_K(ctx, kind, data, line, rep)
+            continue
         r = parse_reply(rep)
         if r == "bad-request":
             ctx.broke("correspondence", "driver bad-request", line)
@@ -1257,6 +1283,7 @@ def correspondence(ctx, want_driver=True):
         if want_driver:
             part_A(ctx, lines, recs)
             part_C(ctx, lines, recs, seedval)
+            X.part_K(ctx, seedval, lines, recs)
     finally:
         torch.set_default_dtype(torch.float32)
     ctx.count("driver_lines", len(lines))
